@@ -131,7 +131,7 @@ class HProp(Prop):
             o.infra = 'harness error: ' + errors[0]
             return o
         V = o.violations
-        failed = []
+        failed = {}     # violation class -> ids of the first cases showing it (used by shrink_steps)
         distinct = set()
         nontrivial = 0
         crashed = hist.end != 'harness-done' or hist.rc != 0
@@ -146,7 +146,10 @@ class HProp(Prop):
                 continue
             vs, nt = self.judge_case(c, recs, plan, meta)
             if vs:
-                failed.append(c['id'])
+                for v in vs:
+                    ids = failed.setdefault(v.cls, [])
+                    if len(ids) < 2 and c['id'] not in ids:
+                        ids.append(c['id'])
                 V.extend(vs)
             key = hashlib.sha1(self.case_line(c).split(' ', 1)[-1].encode('latin-1')).digest()
             if nt and key not in distinct:
@@ -159,14 +162,14 @@ class HProp(Prop):
             if c is None or hist.end in ('limit-wall', 'limit-events', 'limit-simtime'):
                 o.infra = 'run ended with %s rc=%s after %d cases: %s' % (hist.end, hist.rc, len(order), probs)
                 return o
-            failed.append(c['id'])
+            failed.setdefault(self.id + ':process-died', []).append(c['id'])
             what = '; '.join(probs) or ('end=%s rc=%s' % (hist.end, hist.rc))
             V.append(Violation(self.id + ':process-died', 'case %s %s: %s log=%s' % (c['id'], self.describe_case(c), what, hist.cache_log()[-300:].replace('\n', ' | '))))
         elif first_unfinished is not None:
-            failed.append(first_unfinished['id'])
+            failed.setdefault(self.id + ':case-without-result', []).append(first_unfinished['id'])
             V.append(Violation(self.id + ':case-without-result', 'case %s %s produced no complete result' % (first_unfinished['id'], self.describe_case(first_unfinished))))
         if failed:
-            plan['_failed'] = failed[:4]
+            plan['_failed'] = failed
         o.nontrivial = nontrivial > 0
         o.stats = {'distinct_cases': nontrivial, 'cases': len(order)}
         for k in ('h.schedules', 'h.ops', 'h.loops', 'h.lookups', 'h.checklists', 'h.fired'):
@@ -191,10 +194,15 @@ class HProp(Prop):
     def shrink_steps(self, plan):
         if 'cases' not in plan or len(plan['cases']) > 1:
             cases = self.cases_of(plan)
-            want = plan.get('_failed') or []
-            for cid in want:
-                for c in cases:
-                    if c['id'] == cid:
+            want = []
+            for cls in sorted(plan.get('_failed') or {}):
+                for cid in plan['_failed'][cls]:
+                    if cid not in want:
+                        want.append(cid)
+            by_id = {c['id']: c for c in cases}
+            for cid in want[:40]:
+                for c in [by_id.get(cid)]:
+                    if c is not None:
                         cand = {k: v for k, v in plan.items() if k not in ('_failed', 'cases')}
                         cand['cases'] = [copy.deepcopy(c)]
                         yield cand, ('only-case', cid)
@@ -426,9 +434,8 @@ class C21(HexCaseProp):
                     inc = [x[4:]] + f[i + 1:i + 2]
             limit = int(self._plan_limit)
             g = len(re.match(rb'(?:\n|\r\n)*', data).group(0)) if self._plan_relaxed else 0
-            if cls.startswith('seg-dependent:') and self._plan_relaxed and any(re.fullmatch(rb'(?:\n|\r\n)*\r', data[:c]) and data[c:c + 1] == b'\n' for c in cuts):
-                cls = 'seg-dependent:lone-CR-of-leading-CRLF-then-LF'
-            elif cls.startswith('seg-dependent:') and inc[:2] == ['err', '414'] and len(data) - g >= limit and b'\n' not in data[g:g + limit]:
+            # 'seg-dependent:lone-CR-of-leading-CRLF-then-LF' is decided by the harness itself (it re-runs the schedule without the trigger)
+            if cls.startswith('seg-dependent:') and cls != 'seg-dependent:lone-CR-of-leading-CRLF-then-LF' and inc[:2] == ['err', '414'] and len(data) - g >= limit and b'\n' not in data[g:g + limit]:
                 cls = 'seg-dependent:request-line-longer-than-limit'
             out.append(Violation('%s:%s' % (self.id, cls), 'case %s input=%s %s' % (case['id'], self.describe_case(case), ' '.join(f[1:])[:700])))
         return out
